@@ -38,7 +38,7 @@ type c03 struct{}
 func init()            { core.Register(c03{}) }
 func (c03) ID() string { return "C03" }
 
-var c03Byz = []string{"valid-solved", "r=0", "s=0", "r=n", "s=n", "r+n", "s+n", "t=0", "pubx+p", "puby+p?", "offcurve", "infinity", "neg-pub", "e>=n", "x1>=n", "pubx+p/structured", "partial-sum-collision"}
+var c03Byz = []string{"valid-solved", "r=0", "s=0", "r=n", "s=n", "r+n", "s+n", "t=0", "pubx+p", "puby+p?", "offcurve", "infinity", "neg-pub", "e>=n", "x1>=n", "pubx+p/structured", "partial-sum-collision", "result-point"}
 
 func (c03) Plan(tier string) core.Plan {
 	sys := len(c03Byz) * 4
@@ -178,6 +178,42 @@ func c03Byzantine(kind string, w *core.Rand) map[string]string {
 			ev := new(big.Int).Sub(r, R1.X)
 			ev.Mod(ev, n)
 			return map[string]string{"pubx": hx(ref.Pad32(PP.X)), "puby": hx(ref.Pad32(PP.Y)), "e": hx(ref.Pad32(ev)), "r": hx(ref.Pad32(r)), "s": hx(ref.Pad32(s))}
+		case "result-point":
+			// a valid tuple whose R = [s]G+[t]P is a chosen point: x1 = 0 (a finite point, not
+			// infinity), a small or structured x1, a small y1. P = t^-1 (R1 - [s]G), e = r - x1.
+			var R1 ref.Pt
+			switch w.Intn(4) {
+			case 0:
+				R1 = ref.Pt{X: big.NewInt(0), Y: c12SqrtB()}
+			case 1:
+				x, y := smallXPoint(w)
+				R1 = ref.Pt{X: x, Y: y}
+			case 2:
+				x, y := structuredXPoint(w)
+				R1 = ref.Pt{X: x, Y: y}
+			default:
+				x, y := smallYPoint(w)
+				R1 = ref.Pt{X: x, Y: y}
+			}
+			if w.Chance(1, 2) {
+				R1 = ref.Neg(R1)
+			}
+			tt := new(big.Int).Add(r, s)
+			tt.Mod(tt, n)
+			if tt.Sign() == 0 {
+				continue
+			}
+			Q := ref.Add(R1, ref.Neg(ref.MulG(s)))
+			if Q.Inf {
+				continue
+			}
+			PP := ref.Mul(new(big.Int).ModInverse(tt, n), Q)
+			if PP.Inf {
+				continue
+			}
+			ev := new(big.Int).Sub(r, R1.X)
+			ev.Mod(ev, n)
+			return map[string]string{"pubx": hx(ref.Pad32(PP.X)), "puby": hx(ref.Pad32(PP.Y)), "e": hx(ref.Pad32(ev)), "r": hx(ref.Pad32(r)), "s": hx(ref.Pad32(s))}
 		case "partial-sum-collision":
 			// a valid tuple in which [t]P plus the G-part of s built from its high bits lands on
 			// (plus or minus) a small multiple of G: intermediate sums of a windowed double-scalar
@@ -234,15 +270,14 @@ func c03Byzantine(kind string, w *core.Rand) map[string]string {
 			P = ref.Pt{X: x, Y: y}
 			encPx = new(big.Int).Add(x, ref.SM2P)
 		case "puby+p?":
-			// a point whose y is small enough that y+p fits: search x with small y is not
-			// feasible; use y' = y + p only when it fits, else fall back to x alias
-			x, y := smallXPoint(w)
+			// a point whose y is small enough that y+p fits in 32 bytes (the abscissa is a root
+			// of a cubic: see cubic.go); the alias y+p must be refused
+			x, y := smallYPoint(w)
 			P = ref.Pt{X: x, Y: y}
-			if yp := new(big.Int).Add(y, ref.SM2P); fits32(yp) {
-				encPy = yp
-			} else {
-				encPx = new(big.Int).Add(x, ref.SM2P)
+			if w.Chance(1, 6) { // canonical control: the same key as it should be sent
+				break
 			}
+			encPy = new(big.Int).Add(y, ref.SM2P)
 		case "offcurve":
 			P = ref.Pt{X: ref.Int(w.Bytes(31)), Y: ref.Int(w.Bytes(31))}
 			if w.Chance(1, 2) { // off the curve by a structured residual (see residualPoint)
